@@ -2,7 +2,8 @@
     Models: GoChannel/Sub.v (Layer A), GoChannel/Reg.v (Layer B), Decorator/Pump.v (the
     MessageTransform subscriber decorator in front of a subscription). *)
 From WM Require Import Base.Prelude Message.Model GoChannel.Sub GoChannel.SubProofs
-                       GoChannel.Reg GoChannel.RegWitness.
+                       GoChannel.Reg GoChannel.RegWitness GoChannel.RegLocks GoChannel.RegInv GoChannel.RegSend GoChannel.RegLive.
+From WM Require Decorator.Pump Decorator.PumpProofs.
 
 (** per subscription: for every buffer size, any number of Senders, every consumer behaviour,
     every moment of the cancel/Close and every schedule - no send on a closed channel, no
@@ -18,11 +19,11 @@ Print Assumptions C07_subscription_never_panics.
 Theorem C07_teardown_never_stuck_partial : forall cap0 fx ls,
   let s := srun (sinit cap0 fx) ls in
   match Sub.td s with
-  | TSignal | TLocked | TExit => sstep s LTdStep <> None
+  | TSignal | TLocked | TExit => sstep s Sub.LTdStep <> None
   | TWant =>
-      sstep s LTdStep <> None
+      sstep s Sub.LTdStep <> None
       \/ exists t, sending s = Some (OSender t)
-                   /\ (sstep s (LStep t) <> None \/ sstep s (LSeeClosing t) <> None)
+                   /\ (sstep s (Sub.LStep t) <> None \/ sstep s (Sub.LSeeClosing t) <> None)
   | _ => True
   end.
 Proof. exact teardown_never_stuck. Qed.
@@ -38,6 +39,103 @@ Print Assumptions C07_no_panic_refuted.
 (** the same schedule on the repaired Publish: no panic, Publish returns *)
 Theorem C07_no_panic_fixed_witness :
   let s := grun (ginit true false true) (d7_schedule ++ [GT 0; GT 0; GT 0; GT 0]) in
-  Reg.panicked s = false /\ Reg.thr s 0 = PDone true.
+  Reg.panicked s = false /\ Reg.thr s 0 = Reg.PDone true.
 Proof. exact d7_fixed. Qed.
 Print Assumptions C07_no_panic_fixed_witness.
+
+(** ** Registry layer, all schedules, any number of Publish / Subscribe / cancel / Close calls *)
+
+(** after the D7 repair the registry never panics: no "cannot remove subscriber, not found",
+    no negative WaitGroup counter, no double close of g.closing, no nil-map write - persistent
+    or not, blocking or not *)
+Theorem C07_registry_never_panics : forall pers blk ls, Reg.panicked (grun (ginit pers blk true) ls) = false.
+Proof. exact reg_no_panic. Qed.
+Print Assumptions C07_registry_never_panics.
+
+(** "After Close has returned ...": the Pub/Sub is closed, no subscription is registered, every
+    teardown that was started is past wg.Done() (so every output channel is closed - Layer A) *)
+Theorem C07_after_close : forall pers blk fx ls t,
+  let s := grun (ginit pers blk fx) ls in
+  Reg.thr s t = Reg.CDone ->
+  closed s = true /\ Reg.wg s = 0 /\ (forall k, subs s k = [])
+  /\ (forall x, Reg.td s x = DNone \/ td_post (Reg.td s x) = true).
+Proof. exact after_close. Qed.
+Print Assumptions C07_after_close.
+
+(** "... Publish and Subscribe return an error" *)
+Theorem C07_publish_after_close_fails : forall s t k ms s',
+  closed s = true -> Reg.thr s t = PCheck k ms -> gstep s (GT t) = Some s' -> Reg.thr s' t = Reg.PDone false.
+Proof. exact after_close_publish. Qed.
+Print Assumptions C07_publish_after_close_fails.
+Theorem C07_subscribe_after_close_fails : forall s x k s',
+  closed s = true -> sb s x = SCheck k -> gstep s (GS_ x) = Some s' -> sb s' x = SFail.
+Proof. exact after_close_subscribe. Qed.
+Print Assumptions C07_subscribe_after_close_fails.
+
+(** Close, cancel and every concurrent Publish / Subscribe terminate (non-blocking mode; in
+    blocking mode it is false: C05_blocking_returns_refuted): as long as anything is busy some
+    internal step of a started thread is enabled (no deadlock) ... *)
+Theorem C07_registry_no_deadlock : forall pers fx ls,
+  let s := grun (ginit pers false fx) ls in
+  busy s -> exists l, internal l = true /\ en s l
+            /\ match l with
+               | GT t => In t (allthr s)
+               | GS_ x | GD x => In x (allsubs s)
+               | _ => False
+               end.
+Proof. exact reg_progress. Qed.
+Print Assumptions C07_registry_no_deadlock.
+
+(** ... and every internal step strictly decreases a measure: every run of internal steps from a
+    reachable state is at most [measure s] long, and where it stops nothing is busy - whatever
+    the scheduler does, no fairness assumed *)
+Theorem C07_registry_terminates : forall pers fx ls ils s',
+  let s := grun (ginit pers false fx) ls in
+  forallb internal ils = true -> greplay s ils = Some s' ->
+  length ils + measure s' <= measure s
+  /\ ((forall l, internal l = true -> ~ en s' l) -> ~ busy s').
+Proof. exact reg_terminates. Qed.
+Print Assumptions C07_registry_terminates.
+
+(** ** The MessageTransform subscriber decorator in front of a subscription (Decorator/Pump.v) *)
+
+(** the decorated channel is closed at most once, the WaitGroup never goes negative *)
+Theorem C07_decorator_never_panics : forall fx ls, Pump.panicked (Pump.prun (Pump.pinit fx) ls) = false.
+Proof. exact PumpProofs.pump_no_panic. Qed.
+Print Assumptions C07_decorator_never_panics.
+
+(** FALSE of the pinned decorator (D8): one message parked in the Pump.pump, nobody reads: Close
+    waits for the Pump.pump, the Pump.pump for the consumer; after a cancel the decorated channel is never
+    closed.  Witnesses replayed on the implementation. *)
+Theorem C07_decorated_close_refuted :
+  let s := Pump.prun (Pump.pinit false) PumpProofs.d8_schedule in
+  Pump.closer s = Pump.CWait /\ Pump.pump s = Pump.PSend 1 /\ Pump.can_move s = false /\ Pump.out_closed s = false /\ Pump.panicked s = false.
+Proof. exact PumpProofs.d8_close_hangs. Qed.
+Print Assumptions C07_decorated_close_refuted.
+Theorem C07_decorated_cancel_refuted :
+  let s := Pump.prun (Pump.pinit false) PumpProofs.d8_cancel_schedule in
+  Pump.ctx_done s = true /\ Pump.pump s = Pump.PSend 1 /\ Pump.can_move s = false /\ Pump.out_closed s = false.
+Proof. exact PumpProofs.d8_cancel_never_closes. Qed.
+Print Assumptions C07_decorated_cancel_refuted.
+
+(** the repaired decorator: while a Close is in progress, or after a cancel, and the Pump.pump has not
+    finished, something can move WITHOUT the consumer reading and without a new message ... *)
+Theorem C07_decorated_close_never_stuck : forall ls,
+  let s := Pump.prun (Pump.pinit true) ls in
+  (match Pump.closer s with Pump.CInner | Pump.CSignal | Pump.CWait => True | _ => False end
+   \/ (Pump.ctx_done s = true /\ Pump.pump s <> Pump.PDone)) ->
+  Pump.can_move s = true.
+Proof. exact PumpProofs.fixed_close_never_stuck. Qed.
+Print Assumptions C07_decorated_close_never_stuck.
+
+(** ... and every such step decreases a measure: Close / cancel terminate *)
+Theorem C07_decorated_internal_steps_terminate : forall s l s',
+  In l Pump.internal_labels -> Pump.pstep s l = Some s' -> PumpProofs.measure s' < PumpProofs.measure s.
+Proof. exact PumpProofs.internal_step_decreases. Qed.
+Print Assumptions C07_decorated_internal_steps_terminate.
+
+(** the D8 schedule on the repaired decorator runs to completion, the parked message is Pump.dropped *)
+Example C07_decorated_close_fixed_witness :
+  let s := Pump.prun (Pump.pinit true) (PumpProofs.d8_schedule ++ [Pump.LSeeClosing; Pump.LPump; Pump.LPump; Pump.LPump; Pump.LCloseStep]) in
+  Pump.closer s = Pump.CDone /\ Pump.pump s = Pump.PDone /\ Pump.out_closed s = true /\ Pump.dropped s = [1] /\ Pump.panicked s = false.
+Proof. exact PumpProofs.d8_fixed_witness. Qed.
